@@ -450,6 +450,16 @@ var xNames = []string{"", "a", "b"}
 
 // xProgFor builds a deterministic statement program; kind selects the outcome.
 // Every statement declares exactly two parameters (Binds always send two).
+// xCause: every third failing statement fails with an error that wraps a standard-library error
+// (io.EOF, net.ErrClosed, context.Canceled, ...), as handlers backed by real I/O do.
+func xCause(id string) int {
+	h := core.H64("cause " + id)
+	if h%3 != 0 {
+		return 0
+	}
+	return 1 + int((h/3)%uint64(len(hs.Causes)-1))
+}
+
 func xProg(id string, kind int) *hs.Prog {
 	switch kind {
 	case 0: // parser error
@@ -474,9 +484,9 @@ func xProg(id string, kind int) *hs.Prog {
 	case 3, 4: // rows then complete
 		st.Ops = []hs.Op{row(0), row(1), {K: "complete", Tag: "SELECT 2 " + id}}
 	case 5, 6: // fail before rows
-		st.Ops = []hs.Op{{K: "err", Err: &hs.ErrSpec{Base: "early failure " + id, Wraps: []hs.Wrap{{K: 'c', S: "22012"}}}}}
+		st.Ops = []hs.Op{{K: "err", Err: &hs.ErrSpec{Base: "early failure " + id, Cause: xCause(id), Wraps: []hs.Wrap{{K: 'c', S: "22012"}}}}}
 	case 7, 8: // fail after rows
-		st.Ops = []hs.Op{row(0), {K: "err", Err: &hs.ErrSpec{Base: "late failure " + id, Wraps: []hs.Wrap{{K: 'c', S: "22003"}, {K: 's', S: "ERROR"}}}}}
+		st.Ops = []hs.Op{row(0), {K: "err", Err: &hs.ErrSpec{Base: "late failure " + id, Cause: xCause("l" + id), Wraps: []hs.Wrap{{K: 'c', S: "22003"}, {K: 's', S: "ERROR"}}}}}
 	case 9, 10: // panic inside the statement function
 		st.Ops = []hs.Op{row(0), {K: "panic"}}
 	case 11, 12: // complete only
